@@ -4,6 +4,7 @@ CONSTANTS
   Actors = {w1, w2, sn, rs, rep}
   Writers = {w1, w2}
   Snap = sn
+  SnapFails = @SNAPFAILS@
   Rst = rs
   Rep = rep
   Offsets = {0, 1, 2}
@@ -28,5 +29,5 @@ CONSTANTS
   LateInitSel = TRUE
   ReplayAtEnd = @ATEND@
 SYMMETRY WriterSymmetry
-INVARIANTS ConsistentCut FillAccounting ReadBack IndexCoherent NoCollision OccupiedIsLive NoStaleValues StreamIds Converged
+INVARIANTS RecorderClean ConsistentCut FillAccounting ReadBack IndexCoherent NoCollision OccupiedIsLive NoStaleValues StreamIds Converged
 PROPERTIES RollbackNoTrace
